@@ -91,8 +91,6 @@ func canaryConfig(l cl.Local) cl.Config {
 	return cfg
 }
 
-var httpPorts = map[uint16]bool{80: true, 9200: true}
-
 // ---------------------------------------------------------------------------------
 // reference client / expectations
 
@@ -121,7 +119,6 @@ type connRun struct {
 	finSent  bool   // client FIN sent
 	srvNext  uint32 // next sequence number expected from the listener (client's ack field)
 	haveSrv  bool
-	fireStep int // step after which the port handler is expected to report (first flush that satisfies it)
 	pushEnd  int // stream offset after the first pushed segment (-1: none before the FIN)
 	srvFin   bool
 	finAcked bool
@@ -139,14 +136,6 @@ func (c *connRun) expectedAck() uint32 {
 		a++
 	}
 	return a
-}
-
-func headerEnd(stream []byte) int {
-	i := bytes.Index(stream, []byte("\r\n\r\n"))
-	if i < 0 {
-		return len(stream)
-	}
-	return i + 4
 }
 
 func newConnRun(s connSpec) (*connRun, error) {
@@ -167,7 +156,7 @@ func newConnRun(s connSpec) (*connRun, error) {
 	if total != len(stream) {
 		return nil, fmt.Errorf("segments cover %d bytes, stream has %d", total, len(stream))
 	}
-	c := &connRun{spec: s, peer: clients[s.Client], stream: stream, pushEnd: -1, fireStep: -1, acks: map[uint32]bool{}}
+	c := &connRun{spec: s, peer: clients[s.Client], stream: stream, pushEnd: -1, acks: map[uint32]bool{}}
 	c.steps = append(c.steps, step{kind: stSYN}, step{kind: stACK})
 	for i := range s.Segs {
 		c.steps = append(c.steps, step{kind: stData, seg: i})
@@ -176,27 +165,14 @@ func newConnRun(s connSpec) (*connRun, error) {
 	if !finOnLast {
 		c.steps = append(c.steps, step{kind: stFIN})
 	}
-	// when does the port handler complete its read?
-	need := 0
-	if httpPorts[s.Dport] {
-		need = headerEnd(stream)
-	}
+	// stream offset after the first pushed segment
 	cum := 0
-	for i, st := range c.steps {
-		flush := false
-		switch st.kind {
-		case stData:
+	for _, st := range c.steps {
+		if st.kind == stData {
 			cum += s.Segs[st.seg].Len
-			last := st.seg == len(s.Segs)-1
-			flush = s.Segs[st.seg].PSH || (last && finOnLast)
 			if s.Segs[st.seg].PSH && c.pushEnd < 0 {
 				c.pushEnd = cum
 			}
-		case stFIN:
-			flush = true
-		}
-		if flush && cum >= need && c.fireStep < 0 {
-			c.fireStep = i
 		}
 	}
 	return c, nil
